@@ -475,12 +475,13 @@ def run(ctx):
     _swallow(ctx, P, 'C19.2-errors-surface', ('edp_node::node::Node::spawn_receiver_task', 'edp_node::node::Node::route_message', 'edp_client::connection::Connection::receive_message_from_read_half'))
 
     # a reply reaches its outstanding call only if nobody else empties the table of outstanding calls: rule C17.4 re-run
-    ctx.rule('C19.1-call-table-untouched', 'the table of outstanding remote calls is touched only by the call itself and by the router (rule C17.4-table-accessors re-run): a receiver that clears it when ITS peer goes away '
-             'cancels the calls waiting on every other peer, and their replies are then dropped', floor=2)
+    ctx.rule('C19.1-call-table-untouched', 'the table of outstanding remote calls is touched only by the call itself and by the router, and every call registers under a pid freshly taken from the allocator (rules C17.4-table-accessors and '
+             'C17.2-fresh-key re-run): a receiver that clears the table when ITS peer goes away cancels the calls waiting on every other peer; a reply pid that is handed to a later call again makes the router deliver the late answer '
+             'of an expired call to that later call', floor=2)
     from ..order import SubCtx as _Sub19
     from . import c17 as _c17
     if type(ctx).__name__ != 'SubCtx':     # (C17 re-runs rules of this module: do not chase the circle)
-        _c17.run(_Sub19(ctx, 'C19.1-call-table-untouched', 'c17', allow=('C17.4-table-accessors',)))
+        _c17.run(_Sub19(ctx, 'C19.1-call-table-untouched', 'c17', allow=('C17.4-table-accessors', 'C17.2-fresh-key')))
 
     # "exactly that recipient": the tables are keyed by pid, so what a pid IS (node, id, serial, creation) decides who gets the message
     ctx.rule('C19.1-recipient-identity', 'equality, hash and order of the identifier types read all their logical fields - creation included (rule C10.3-logical-fields re-run): '
